@@ -151,7 +151,7 @@ def _create_constraint(
     if mjd is not None:
       shape = tuple(sizes[dim] if isinstance(dim, str) else dim for dim in f.type.shape)
       val = np.zeros(shape, dtype=wp.dtype_to_numpy(f.type.dtype))
-      if f.name in ("type", "id", "pos", "margin", "D", "vel", "aref", "frictionloss", "state", "force"):
+      if f.name in ("type", "id", "pos", "margin", "D", "vel", "aref", "frictionloss", "state", "force", "island"):
         val[:, : mjd.nefc] = np.tile(getattr(mjd, "efc_" + f.name), (nworld, 1))
       efc_kwargs[f.name] = wp.array(val, dtype=f.type.dtype)
     else:
@@ -1651,17 +1651,24 @@ def _allocate_island_arrays(
   d.tree_island = wp.array(np.tile(mjd.tree_island, (nworld, 1 if enabled else 0)), dtype=int)
   d.dof_island = wp.array(np.tile(mjd.dof_island, (nworld, 1 if enabled else 0)), dtype=int)
 
-  d.island_dofadr = wp.empty((nworld, ntree_size), dtype=int)
-  d.island_idofadr = wp.empty((nworld, ntree_size), dtype=int)
-  d.island_nv = wp.empty((nworld, ntree_size), dtype=int)
-  d.island_nefc = wp.empty((nworld, ntree_size), dtype=int)
-  d.island_ne = wp.empty((nworld, ntree_size), dtype=int)
-  d.island_nf = wp.empty((nworld, ntree_size), dtype=int)
-  d.island_iefcadr = wp.empty((nworld, ntree_size), dtype=int)
-  d.map_dof2idof = wp.empty((nworld, nv_size), dtype=int)
-  d.map_idof2dof = wp.empty((nworld, nv_size), dtype=int)
-  d.map_efc2iefc = wp.empty((nworld, njmax_size), dtype=int)
-  d.map_iefc2efc = wp.empty((nworld, njmax_size), dtype=int)
+  # nisland / nidof come from mjd: the per-island arrays and maps must describe the same islands
+  def island_array(name: str, size: int) -> wp.array:
+    val = np.zeros((nworld, size), dtype=int)
+    src = getattr(mjd, name)[:size] if mjd.nisland > 0 else ()
+    val[:, : len(src)] = src
+    return wp.array(val, dtype=int)
+
+  d.island_dofadr = island_array("island_dofadr", ntree_size)
+  d.island_idofadr = island_array("island_idofadr", ntree_size)
+  d.island_nv = island_array("island_nv", ntree_size)
+  d.island_nefc = island_array("island_nefc", ntree_size)
+  d.island_ne = island_array("island_ne", ntree_size)
+  d.island_nf = island_array("island_nf", ntree_size)
+  d.island_iefcadr = island_array("island_iefcadr", ntree_size)
+  d.map_dof2idof = island_array("map_dof2idof", nv_size)
+  d.map_idof2dof = island_array("map_idof2dof", nv_size)
+  d.map_efc2iefc = island_array("map_efc2iefc", njmax_size)
+  d.map_iefc2efc = island_array("map_iefc2efc", njmax_size)
 
   d.dof_islandid = wp.empty((nworld, nv_size), dtype=int)
   d.efc_islandid = wp.empty((nworld, njmax_size), dtype=int)
